@@ -91,6 +91,17 @@ ARGS: List[Tuple[str, List[str]]] = [
     ("empty-string", [""]),
     ("options", ["--k=v", "-x"]),
 ]
+N_BASE_ARGS = len(ARGS)
+# strings that look like comments or other syntax to a careless pre-processor; they are ordinary JSON strings
+ARGS += [
+    ("glob-pair", ["--include", "src/*", "--exclude", "*/node_modules"]),
+    ("block-comment", ["/* x */", "after"]),
+    ("open-then-close", ["/*", "kept?", "*/"]),
+    ("close-then-open", ["*/", "/*"]),
+    ("slashes+hash", ["//", "http://host//path", "#", "a // b", "\n//x"]),
+    ("json-looking", ['{"a":1}', "[1,2]", "a,]", ",}", '"', "\\"]),
+]
+SYNTAX_ARGS = list(range(N_BASE_ARGS, len(ARGS)))
 ABSENT = "<absent>"
 ENVS: List[Tuple[str, Any]] = [
     ("absent", ABSENT),
@@ -113,6 +124,11 @@ ENVS.append(("MY_SECRET_KEY+DB_PASSWORD", {"MY_SECRET_KEY": "k-456", "DB_PASSWOR
 ENVS.append(("PASSWD+X_CREDENTIALS", {"PASSWD": "x", "X_CREDENTIALS": "user:pass"}))
 ENVS.append(("lower+mixed-case", {"api_token": "lower", "My_Secret": "Mixed", "passWord": "pw", "Keyring": "kr"}))
 SECRET_ENVS = list(range(_N0, len(ENVS)))
+_N1 = len(ENVS)
+ENVS.append(("glob-values", {"INCLUDE": "src/*", "EXCLUDE": "*/node_modules", "URL": "http://host//path"}))
+ENVS.append(("comment-values", {"C1": "/* x */", "C2": "// y", "C3": "# z", "C4": "a,]", "C5": '{"a":1}'}))
+ENVS.append(("syntax-in-names", {"A/*": "open", "B*/": "close", "//c": "slashes", "#d": "hash", "e,]": "comma"}))
+SYNTAX_ENVS = list(range(_N1, len(ENVS)))
 LOGGING = ["default", "INFO", "DEBUG"]   # default = what the runner leaves (logging disabled); else root logger level
 TIMEOUTS: List[Tuple[str, Any]] = [
     ("absent", ABSENT),
@@ -128,7 +144,13 @@ EXTRAS: List[Tuple[str, Dict[str, Any], Dict[str, Any]]] = [
      {"disabled": False, "description": "x y", "transport": "stdio", "x-unknown": {"nested": [1, None]}},
      {"$schema": "https://example.invalid/schema.json", "defaults": {"timeout": 1}, "version": 3}),
 ]
+N_BASE_EXTRAS = len(EXTRAS)
+EXTRAS.append(("syntax-like-keys",
+               {"note": "see /* here", "x*/": 1, "//": "c", "#": [1, "*/"], "glob": "src/*"},
+               {"/*": "open", "comment": "*/ close // #", "list": ["/*", "*/"]}))
 NAMES = ["alpha", "b c", "é-ü", "d.e/f"]
+N_BASE_NAMES = len(NAMES)
+NAMES += ["/*srv", "srv*/", "//x", "#y", '{"n":1}', "a,]"]      # reached through name_offset
 ENTRIES = ["load_config", "test_server", "run_command"]
 
 # shapes used in multi-server files: pairwise different in args, env and timeout,
@@ -760,6 +782,9 @@ def _probe_loader(path: str, name: str) -> str:
 # one case
 # ---------------------------------------------------------------------------
 def case_text(cfg: Dict[str, Any]) -> str:
+    if "launches" in cfg:
+        rest = {k: v for k, v in cfg.items() if k not in ("launches", "launcher")}
+        return f"load_config once, then {cfg['launches']} launches through {cfg['launcher']}: {case_text(rest)}"
     if "after_cli" in cfg:
         rest = {k: v for k, v in cfg.items() if k != "after_cli"}
         return f"same process: first the command line with flags {cfg['after_cli']!r} (logging stays as it left it), then: {case_text(rest)}"
@@ -803,7 +828,7 @@ def case_text(cfg: Dict[str, Any]) -> str:
 def _req_names(cfg: Dict[str, Any]) -> List[str]:
     out = []
     for r in cfg["request"]:
-        out.append(NAMES[r] if isinstance(r, int) else str(r))
+        out.append(NAMES[r + int(cfg.get("name_offset") or 0)] if isinstance(r, int) else str(r))
     return out
 
 
@@ -822,6 +847,8 @@ def run_one(ctl: explorer.Ctl, cfg: Dict[str, Any]) -> Dict[str, Any]:
             return _run_sequence(cfg, tmp, pids)
         if "after_cli" in cfg:
             return _run_after_cli(cfg, tmp, pids)
+        if "launches" in cfg:
+            return _run_relaunch(cfg, tmp, pids)
         if "cli" in cfg:
             return _run_cli_case(cfg, tmp, pids)
         return _run_case(cfg, tmp, pids)
@@ -832,6 +859,152 @@ def run_one(ctl: explorer.Ctl, cfg: Dict[str, Any]) -> Dict[str, Any]:
                 _launches_in(root, pids)
         _reap(pids, marker, grace=0.0 if not pids else 2.0)
         shutil.rmtree(tmp, ignore_errors=True)
+
+
+LAUNCHERS = ["stdio_client", "StdioClient", "StdioTransport", "stdio_client_with_initialize"]
+ORDINALS = ["first", "second", "third", "fourth"]
+
+
+def _run_relaunch(cfg: Dict[str, Any], tmp: str, pids: List[int]) -> Dict[str, Any]:
+    """load_config once; then k connections, one after the other, from the SAME returned parameters object.
+    The loader's result must come out of every launch unchanged, and every launch must run exactly what is configured."""
+    import anyio
+
+    from chuk_mcp.config import load_config
+    from chuk_mcp.protocol.messages import send_initialize, send_ping
+
+    k = cfg["launches"]
+    launcher = cfg["launcher"]
+    path, specs, _ = _build(cfg, tmp)
+    sp = specs[0]
+    name = _req_names(cfg)[0]
+    rec: Dict[str, Any] = {"snapshots": [], "done": 0}
+    timed_out = False
+    marker = os.fsencode(tmp + os.sep)
+
+    def snapshot(params):
+        env = getattr(params, "env", None)
+        return {"command": getattr(params, "command", None), "args": list(getattr(params, "args", []) or []),
+                "env": None if env is None else dict(env)}
+
+    async def one_launch(params):
+        if launcher == "stdio_client":
+            from chuk_mcp.transports.stdio import stdio_client
+
+            async with stdio_client(params) as (r, w):
+                await send_initialize(r, w, timeout=REQ_TIMEOUT_S)
+                await send_ping(r, w, timeout=REQ_TIMEOUT_S)
+        elif launcher == "StdioClient":
+            from chuk_mcp.transports.stdio.stdio_client import StdioClient
+
+            async with StdioClient(params) as client:
+                r, w = client.get_streams()
+                await send_initialize(r, w, timeout=REQ_TIMEOUT_S)
+                await send_ping(r, w, timeout=REQ_TIMEOUT_S)
+        elif launcher == "StdioTransport":
+            from chuk_mcp.transports.stdio.transport import StdioTransport
+
+            async with StdioTransport(params) as tr:
+                r, w = await tr.get_streams()
+                await send_initialize(r, w, timeout=REQ_TIMEOUT_S)
+                await send_ping(r, w, timeout=REQ_TIMEOUT_S)
+        elif launcher == "stdio_client_with_initialize":
+            from chuk_mcp.transports.stdio.stdio_client import stdio_client_with_initialize
+
+            async with stdio_client_with_initialize(params, timeout=REQ_TIMEOUT_S) as (r, w, _init):
+                await send_ping(r, w, timeout=REQ_TIMEOUT_S)
+        else:
+            raise core.HarnessError(f"unknown launcher {launcher!r}")
+
+    async def main():
+        with anyio.fail_after(INNER_LIMIT_S):
+            loaded = await load_config(path, name)
+            params = loaded[0] if isinstance(loaded, tuple) else loaded
+            rec["snapshots"].append(snapshot(params))
+            for _ in range(k):
+                try:
+                    await one_launch(params)
+                except Exception as e:  # noqa: BLE001
+                    rec.setdefault("launch_errors", []).append([rec["done"], _exc_name(e)])
+                rec["done"] += 1
+                rec["snapshots"].append(snapshot(params))
+
+    with _parent_env():
+        from chuk_mcp.mcp_client.host.environment import get_default_environment
+
+        expected_default = {kk: v for kk, v in dict(get_default_environment()).items() if kk in DEFAULT_NAMES}
+        quiet = _Quiet(collect=False)
+        try:
+            with _Watchdog(CASE_LIMIT_S):
+                with quiet:
+                    try:
+                        anyio.run(main)
+                    except Exception as e:  # noqa: BLE001
+                        rec["error"] = _exc_name(e)
+        except CaseTimeout:
+            timed_out = True
+        launches = _launches_in(sp["sink"], pids)
+        _reap(pids, marker)
+
+    text = f"load_config once, then {k} launches through {launcher} from the same parameters object; {case_text({kk: v for kk, v in cfg.items() if kk not in ('launches', 'launcher')})}"
+    viol: List[Dict[str, Any]] = []
+
+    def norm(x: str) -> str:
+        return x.replace(tmp, "<TMP>").replace(WITNESS_PY, "<PY>")
+
+    def add(sig, msg):
+        viol.append({"sig": sig, "msg": norm(f"{msg} :: {text}")})
+
+    tag = {"entry": "relaunch", "launcher": launcher}
+    if timed_out:
+        add({"class": "hang", **tag}, "did not finish")
+    if "error" in rec:
+        add({"class": "not-launched", **tag, "loader": "raises-" + rec["error"]}, f"load_config / the run raised {rec['error']}")
+    for j, e in rec.get("launch_errors", []):
+        add({"class": "launch-raised", **tag, "launch": ORDINALS[j], "error": e}, f"the {ORDINALS[j]} launch raised {e}")
+    snaps = rec["snapshots"]
+    for j in range(1, len(snaps)):
+        for member in ("command", "args", "env"):
+            if snaps[j][member] != snaps[0][member]:
+                add({"class": "loader-result-modified-by-launching", **tag, "member": member, "after": ORDINALS[j - 1] + "-launch"},
+                    f"the parameters object returned by load_config had {member}={snaps[0][member]!r}; after the "
+                    f"{ORDINALS[j - 1]} launch it has {snaps[j][member]!r}")
+                break
+        else:
+            continue
+        break
+    if len(launches) != k and not timed_out and "error" not in rec:
+        add({"class": "launch-count", **tag, "launches": min(len(launches), 4)}, f"{len(launches)} launches recorded for {k} connections")
+    exp_argv = [os.fsencode(x).hex() for x in sp["exp_argv"]]
+    n_hs = 0
+    for j, L in enumerate(launches[:4]):
+        if L["argv"] != exp_argv:
+            add({"class": "argv-mismatch", **tag, "launch": ORDINALS[j], "args": ARGS[sp["shape"][0]][0]},
+                f"{ORDINALS[j]} launch: child argv {_hexs(L['argv'])!r} != configured {_hexs(exp_argv)!r}")
+        got_env = {}
+        for kk, v in L["env"].items():
+            try:
+                got_env[os.fsdecode(bytes.fromhex(kk))] = os.fsdecode(bytes.fromhex(v))
+            except ValueError:
+                pass
+        want = dict(sp["env"]) if _with_values(sp["env"]) else dict(expected_default)
+        have = {kk: got_env.get(kk, ABSENT) for kk in want}
+        if have != want:
+            add({"class": "env-mismatch", **tag, "launch": ORDINALS[j], "env": sp["env_name"]},
+                f"{ORDINALS[j]} launch: child environment restricted to the expected names is {have!r}, expected {want!r}")
+        conf_keys = set(sp["env"]) if _with_values(sp["env"]) else set()
+        leaked = sorted(c for c in CANARIES if c not in conf_keys and c in got_env)
+        if leaked:
+            add({"class": "env-leak", **tag, "launch": ORDINALS[j]}, f"parent-only variables {leaked!r} reached the child")
+        methods = [m for m, _ in L["methods"]]
+        if "initialize" in methods and "notifications/initialized" in methods[methods.index("initialize") + 1:]:
+            n_hs += 1
+        else:
+            add({"class": "no-handshake", **tag, "launch": ORDINALS[j]}, f"the witness saw only {methods!r}")
+    return {"entry": "relaunch", "case": text, "launches": len(launches), "handshakes": n_hs,
+            "launch_errors": rec.get("launch_errors"), "error": rec.get("error"),
+            "outcome": f"relaunch/{launcher} connections={k} launched={len(launches)} handshakes={n_hs}",
+            "violations": viol, "counters": {"witness_launches": len(launches), "handshakes_seen_by_witness": n_hs}}
 
 
 def _run_after_cli(cfg: Dict[str, Any], tmp: str, pids: List[int]) -> Dict[str, Any]:
@@ -1091,9 +1264,9 @@ def _run_case(cfg: Dict[str, Any], tmp: str, pids: List[int], root: Optional[str
                 continue
             sp = specs[req[0]]            # all members of one sink are indistinguishable launches (checked in _build)
             shape = sp["shape"]
-            reqnames = [NAMES[i] for i in req]
+            reqnames = [NAMES[i + off] for i in req]
             if len(ls) < len(req):
-                st = loader_status(NAMES[req[-1]])
+                st = loader_status(NAMES[req[-1] + off])
                 tw = twin_of(req[0]) if len(members) == 1 else "env-same"
                 for _ in range(len(req) - len(ls)):
                     add({"class": "not-launched", "entry": entry, "loader": st, "twin": tw},
@@ -1528,7 +1701,7 @@ def configs_for(tier: str) -> Dict[str, Tuple[int, List[Dict[str, Any]]]]:
 
     # (1) one server: the full product of the grammar x entry points
     g = []
-    for a, e, t, x in itertools.product(range(len(ARGS)), range(N_BASE_ENVS), range(len(TIMEOUTS)), range(len(EXTRAS))):
+    for a, e, t, x in itertools.product(range(N_BASE_ARGS), range(N_BASE_ENVS), range(len(TIMEOUTS)), range(N_BASE_EXTRAS)):
         shape = [a, e, t, x]
         g.append({"entry": "load_config", "servers": [shape], "request": [0]})
         for verbose in ([False, True] if thorough else [False]):
@@ -1630,7 +1803,7 @@ def configs_for(tier: str) -> Dict[str, Tuple[int, List[Dict[str, Any]]]]:
     # (5) how the command is resolved: a bare name must be looked up on the PATH the child gets
     #     (the configured env's PATH; the default env's PATH when env is absent), never on the harness's own
     g = []
-    res_args = list(range(len(ARGS))) if thorough else [0, 2, 6]
+    res_args = list(range(N_BASE_ARGS)) if thorough else [0, 2, 6]
     for entry in ENTRIES:
         extra = {"cmdkind": "plain"} if entry == "run_command" else ({"verbose": False} if entry == "test_server" else {})
         for a in res_args:
@@ -1647,7 +1820,7 @@ def configs_for(tier: str) -> Dict[str, Tuple[int, List[Dict[str, Any]]]]:
     g = []
     for entry in ENTRIES:
         extra = {"cmdkind": "plain"} if entry == "run_command" else ({"verbose": False} if entry == "test_server" else {})
-        for a in (range(len(ARGS)) if thorough else (0, 2, 5, 6)):   # >= 128 cases, so the pool (not the parent) runs them
+        for a in (range(N_BASE_ARGS) if thorough else (0, 2, 5, 6)):   # >= 128 cases, so the pool (not the parent) runs them
             for e in STEER_ENVS:
                 g.append({"entry": entry, "servers": [[a, e, 0, 0]], "request": [0], **extra})
     parts["env-steering-variables"] = (1, g)
@@ -1675,7 +1848,7 @@ def configs_for(tier: str) -> Dict[str, Tuple[int, List[Dict[str, Any]]]]:
         extra = {"cmdkind": "plain"} if entry == "run_command" else ({"verbose": False} if entry == "test_server" else {})
         for e in SECRET_ENVS:
             for lvl in LOGGING:
-                for a in ((0, 2, 5, 6) if not thorough else range(len(ARGS))):
+                for a in ((0, 2, 5, 6) if not thorough else range(N_BASE_ARGS)):
                     g.append({"entry": entry, "servers": [[a, e, 0, 0]], "request": [0], "logging": lvl, **extra})
             for flags in ("verbose", "run"):
                 g.append({"after_cli": flags, "entry": entry, "servers": [[2, e, 0, 0]], "request": [0], **extra})
@@ -1694,6 +1867,34 @@ def configs_for(tier: str) -> Dict[str, Tuple[int, List[Dict[str, Any]]]]:
                 for e in ((0, 2) if not thorough else (0, 1, 2, 3)):
                     g.append({"entry": entry, "servers": [[a, e, 0, 0, m, d]], "request": [0], **extra})
     parts["command-path-with-white-space"] = (1, g)
+
+    # (11) load once, connect k times from the same returned parameters object
+    g = []
+    for launcher in LAUNCHERS:
+        for k in (2, 3):
+            for a in range(N_BASE_ARGS):
+                for e in ((0, 2, 3) if not thorough else range(N_BASE_ENVS)):
+                    g.append({"entry": "load_config", "servers": [[a, e, 0, 0]], "request": [0], "launches": k, "launcher": launcher})
+    parts["reconnect-from-the-same-parameters"] = (1, g)
+
+    # (12) strings that look like comments / JSON syntax - in args, env values, env names, extra keys, server names
+    g = []
+    for entry in ENTRIES:
+        extra = {"cmdkind": "plain"} if entry == "run_command" else ({"verbose": False} if entry == "test_server" else {})
+        for a in SYNTAX_ARGS:
+            for e in [0] + SYNTAX_ENVS:
+                for x in (0, N_BASE_EXTRAS):
+                    g.append({"entry": entry, "servers": [[a, e, 0, x]], "request": [0], **extra})
+        for e in SYNTAX_ENVS:
+            g.append({"entry": entry, "servers": [[0, e, 0, 0]], "request": [0], **extra})
+        for off in range(N_BASE_NAMES, len(NAMES)):
+            for a in (0, SYNTAX_ARGS[0]):
+                g.append({"entry": entry, "servers": [[a, 0, 0, 0]], "name_offset": off, "request": [0], **extra})
+        # the opening fragment in one server entry, the closing one in the next (names /*srv and srv*/)
+        pair = [[SYNTAX_ARGS[2], SYNTAX_ENVS[0], 0, 0], [SYNTAX_ARGS[3], SYNTAX_ENVS[1], 1, N_BASE_EXTRAS]]
+        for req in ([0], [1]):
+            g.append({"entry": entry, "servers": pair, "name_offset": N_BASE_NAMES, "request": req, **extra})
+    parts["syntax-like-strings"] = (1, g)
     return parts
 
 
@@ -1733,19 +1934,23 @@ def run(tier: str, only=None) -> core.Result:
     cov["handshakes_seen_by_witness"] = sum(p["counters"].get("handshakes_seen_by_witness", 0)
                                             for p in res.parts.values())
     cov["grammar"] = {
-        "args": [a for _, a in ARGS],
+        "args": [a for _, a in ARGS[:N_BASE_ARGS]],
         "env": ["absent" if e is ABSENT else e for _, e in ENVS[:N_BASE_ENVS]],
         "env_steering": [e for _, e in ENVS[N_BASE_ENVS:]],
         "sequence_states": SEQ_STATES,
         "env_with_secret_looking_names": [e for _, e in ENVS[SECRET_ENVS[0]:]],
         "root_logger": LOGGING,
         "odd_directory_names": [d for _, d in ODD_DIRS],
+        "syntax_like_args": [a for _, a in ARGS[N_BASE_ARGS:]],
+        "syntax_like_env": [e for _, e in ENVS[SYNTAX_ENVS[0]:]],
+        "syntax_like_server_names": NAMES[N_BASE_NAMES:],
+        "launchers": LAUNCHERS,
         "command_line": {"config": CLI_CONFIG, "server": CLI_SERVER, "flags": CLI_FLAGS, "option_forms": CLI_FORMS,
                          "default_locations_in_order": DEFAULT_LOCATIONS, "via": CLI_VIA},
         "run_command_command_functions": CMD_KINDS,
         "timeout": ["absent" if t is ABSENT else t for _, t in TIMEOUTS],
         "extra_keys": [n for n, _, _ in EXTRAS],
-        "server_names_by_position": NAMES,
+        "server_names_by_position": NAMES[:N_BASE_NAMES],
         "entry_points": ENTRIES,
         "multi_server_shapes": [shape_text(s) for s in R_SHAPES],
         "same_command_and_args_shapes": [shape_text(s) for s in D_SHAPES],
@@ -1800,6 +2005,11 @@ def run(tier: str, only=None) -> core.Result:
         "such names; (10) the program under a directory whose name contains a space / tab / two spaces / quotes + space / "
         "apostrophe + space / no-break space / em space x {no args member, args [], two non-empty args} x env x entry points, "
         "with a decoy program installed at every white-space prefix of the command.  "
+        "(11) load_config once, then 2 and 3 connections one after the other from the SAME returned parameters object through "
+        "stdio_client / StdioClient / StdioTransport / stdio_client_with_initialize x args(7) x env: every launch judged, and "
+        "the parameters object compared before and after every launch; (12) strings that look like comments or JSON syntax "
+        "(/*, */, //, #, /* x */, src/* ... */node_modules, http://host//path, {\"a\":1}, [1,2], a,] ...) as args, env values, "
+        "env names, unknown extra keys and values, server names, and split over two server entries, x entry points.  "
         "A case is non-trivial if it ran the entry point to completion; distinct = distinct observation digests "
         "(the observation contains the case description, what each witness recorded and what the entry point printed, "
         "with temp paths and the interpreter path normalised)"
@@ -1848,6 +2058,8 @@ def run(tier: str, only=None) -> core.Result:
         "on the root logger (the command line installs its own stderr handler; fd 2 is /dev/null meanwhile) and restore "
         "level, handlers and the disable afterwards; file-based logging configuration is not generated",
         "odd program paths are absolute; the expected argv for the '#!' wrapper is [interpreter, configured path, *args]",
+        "reconnects are sequential (the previous connection is closed before the next is opened); concurrent connections "
+        "from one parameters object are not generated",
         "valid JSON that is not an object, entries without 'command', directories given as config path are outside the three "
         "malformed classes of the statement and not generated",
     ]
